@@ -30,6 +30,8 @@ func vEngines() []drv.Runner {
 		drv.Wrap(drv.Engine[c10Case]{Property: "C10", Name: "c10", Gen: genC10, Run: runC10}),
 		drv.Wrap(drv.Engine[c09Case]{Property: "C09", Name: "c09", Gen: genC09, Run: runC09, BatchChecks: 100}),
 		drv.Wrap(drv.Engine[c20Case]{Property: "C20", Name: "c20", Gen: genC20, Run: runC20, BatchChecks: 100}),
+		// the write-path clause of C05 (only authorized writes take effect) is decided by the same engine
+		drv.Wrap(drv.Engine[c20Case]{Property: "C05", Name: "c20", Gen: genC20, Run: runC20, BatchChecks: 100}),
 		drv.Wrap(drv.Engine[c04Case]{Property: "C04", Name: "c04", Gen: genC04, Run: runC04}),
 	}
 }
